@@ -26,6 +26,10 @@ def run(ctx):
         rep = vlib.go_harness(ctx, "pkg/netpoll", "TestVerifPollerRandom", name="random-" + tags.replace(" ", "+"), tags=tags,
                               env={"VERIF_SCHEDULES": budget}, timeout=2400)
         vlib.absorb(ctx, rep, "random")
+    # systematic schedules with a bounded number of context switches (independent of the model's step structure)
+    for tags in ("verif", "verif poll_opt"):
+        rep = vlib.go_harness(ctx, "pkg/netpoll", "TestVerifPollerPreempt", name="preempt-" + tags.replace(" ", "+"), tags=tags, timeout=1800)
+        vlib.absorb(ctx, rep, "preempt")
     try:
         import checks.system as system
         system.async_part(ctx)
